@@ -319,6 +319,27 @@ G_MEMBERS = [(r'^size\|', '{*self}.n'), (r'^vector\|nano::tensor_t<nano::tensor_
              (r'^lpNorm\|', 'nv_lpnorm({*self})')]
 
 
+def make_rng_hook(P, n):
+    """make_rng() with the defaulted (empty) seed is seeded from std::random_device: a different stub"""
+    if n.get('kind') != 'CallExpr' or len(n.get('inner', [])) != 2:
+        return None
+    from cxx2c import unwrap
+    if unwrap(n['inner'][0]).get('referencedDecl', {}).get('name') != 'make_rng' or n['inner'][1].get('kind') != 'CXXDefaultArgExpr':
+        return None
+    P.note('make_rng() -> nv_make_rng_unseeded()')
+    return 'nv_make_rng_unseeded()'
+
+
+def gboost_ctor_target():
+    types = [(r'tensor_t<nano::tensor_vector_storage_t, long, 1>|^nano::indices_t$', 'struct nv_ilist'),
+             (r'^nano::seed_t$|^std::optional<unsigned long>$', 'uint64_t')] + G_TYPES[2:]
+    calls = [(r'^make_rng\|', 'nv_make_rng({0})'), (r'^ctor\|std::optional<unsigned long>\|', '{0}'),
+             (r'^ctor\|nano::tensor_t<nano::tensor_vector_storage_t, double, 1>\|void \((const )?(long|nano::tensor_size_t)', 'nv_wvec_make({0})')]
+    f = Fn('gboost_sampler_ctor', 'src/gboost/sampler.cpp', 'sampler_t', flt='sampler_t::sampler_t', kinds=('CXXConstructorDecl',),
+           self_struct='struct nv_gsampler', types=types, calls=calls, members=G_MEMBERS, hooks=[make_rng_hook])
+    return Target('gboost_sampler_ctor', [f], GH)
+
+
 def gboost_target():
     f = Fn('gboost_sample', 'src/gboost/sampler.cpp', 'sample', flt='sampler_t::sample', self_struct='struct nv_gsampler',
            types=G_TYPES, calls=G_CALLS, members=G_MEMBERS)
@@ -356,7 +377,7 @@ def build(tier):
         fns.append(r[1])
     vcs += lemmas()
     return {
-        'targets': lambda_targets() + [gboost_target()], 'vcs': vcs, 'functions': fns,
+        'targets': lambda_targets() + [gboost_ctor_target(), gboost_target()], 'vcs': vcs, 'functions': fns,
         'decided': [
             'k-fold and random splitter, for every n in [0, 2^56], folds in [2,100], seed, percentage in [10,90], every fold: |train|+|valid| == n; every input element is copied exactly once into exactly one of train/valid and every slot of both is filled exactly once (=> disjoint, union == input for distinct inputs); both parts are sorted by std::sort over their whole range; one pair per fold',
             'k-fold: fold f validates exactly positions [f*chunk, f+1<folds ? (f+1)*chunk : n) of the shuffled input, these ranges tile [0,n) (each element validated by exactly one fold), sizes lie in [chunk, chunk+folds) (differ by less than folds)',
@@ -364,11 +385,11 @@ def build(tier):
             'both splitters: the only rng is make_rng(seed) with seed == parameter "splitter::seed" (=> equal seeds give equal splits, given deterministic std::shuffle); no other input is read (closed extraction: every call is mapped)',
             'every Eigen segment(begin,len) / dst=src / tensor slice / element access / indices_t(size) precondition that NDEBUG compiles out holds at every call site; no signed overflow in any index computation',
             'sample_without_replacement (0 <= count <= n): count distinct sorted members of the input; sample_with_replacement, uniform and weighted (n >= 1, count >= 0): count sorted members; weighted: the drawn index is used unchanged over the whole weight vector, so no zero-weight index is returned given the STL guarantee',
-            'generator lambdas of sample_with_replacement (CBMC, real memory): the element access is in bounds and the result is an element of the input for every rng state'],
+            'generator lambdas of sample_with_replacement (CBMC, real memory): the element access is in bounds and the result is an element of the input for every rng state',
+            'gboost::sampler_t (CBMC): the constructor establishes the weight-vector invariant and seeds the rng from its seed argument; sample(): count = trunc(ratio*n) lies in [0,n], every mode calls the matching sampler inside its precondition and returns its result (subsample: distinct sorted members; bootstrap: sorted members; weighted: sorted members of positive weight with every weight written, in order, and weight(i) = loss / gradient norm of sample i; off: the whole list), all tensor index asserts hold, both loops terminate'],
         'not_decided': [
             'that std::shuffle/std::sort/std::generate/std::discrete_distribution behave as specified (assumed contracts)',
             'sample_from_ball (floating-point norm computation: only a real-arithmetic statement would be possible)',
-            'gboost::sampler_t::sample dispatch (switch + float count): not covered',
             'the convenience overloads that create their own rng (make_rng()) and forward',
             'n == 0 for sample_with_replacement: excluded by precondition (make_udist(0, -1) violates the library\'s own assert(min <= max) even for count == 0)'],
         'assumptions': [
@@ -381,6 +402,10 @@ def build(tier):
             'registered parameter domains: splitter::folds in [2,100], splitter::seed in [0,1024], splitter::random::train_per in [10,90] (C19 proves parameters stay in their domains)',
             'index vectors have at most 2^56 elements',
             'preconditions taken from the library\'s own (NDEBUG-disabled) asserts: count <= samples.size() (without replacement), samples.size() == weights.size(), and min <= max in make_udist, i.e. a non-empty input for sample_with_replacement; a positive total weight for std::discrete_distribution',
+            'gboost::sampler_t::sample calls the three samplers BY CONTRACT: the C contracts in specs/C12/gsampler.h restate by hand what back end B proves for them (same requires / ensures, not generated from one source)',
+            'IEEE multiplication is monotone: 0 < a <= 1, b >= 0 => 0 <= fl(a*b) <= b (one axiom on the otherwise uninterpreted product; CBMC needs 93 s to bit-blast it)',
+            'every training sample stored in sampler_t::m_samples is a valid sample of the dataset (0 <= s < errors_losses.cols == gradients.dim0); gboost::subsample_ratio in (0,1]; a non-empty training set',
+            'existence of a positive weight / non-negative weights (asserts of the weighted sampler) are not re-established at the call site in sampler_t::sample (they depend on the loss values)',
             'the multiset argument from (copied exactly once / filled exactly once / sizes add up) to (disjoint, union == input) is a pigeonhole step done on paper (module docstring), not by the solver'],
         'trusted': ['round() in the property statement is read as round-half-away-from-zero (C round), not banker\'s rounding'],
     }
